@@ -4,6 +4,7 @@ mod l_pos;
 mod l_unify;
 mod l_load;
 mod l_compile;
+mod l_resolve;
 
 fn main() {
     let args: Vec<String> = std::env::args().collect();
@@ -13,6 +14,7 @@ fn main() {
         "unify" => l_unify::run(),
         "load" => l_load::run(),
         "compile" => l_compile::run(),
+        "resolve" => l_resolve::run(),
         _ => {
             eprintln!("usage: oalimpl <layer>");
             std::process::exit(2);
